@@ -224,8 +224,9 @@ package roaring
 //@   modifies c.flags, c.pointer, c.len, c.cap, c.data, c.$arr, c.$runs, c.$bm
 
 //@ contract (*Container).bitmapAdd props C01,C03
-//@   requires c != nil && wfBm(c) && c.n < 65536
+//@   requires c != nil && wfBm(c) && c.n < 2147483647
 //@   ensures result0 != nil && wfBm(result0)
+//@   ensures (old(c.flags) & 3) == 0 ==> result0 == c
 //@   ensures result1 <==> !old(mem(c, v))
 //@   ensures forall x :: 0 <= x && x < 65536 ==> (mem(result0, x) <==> (x == v || old(mem(c, x))))
 //@   ensures result1 ==> result0.n == old(c.n) + 1
